@@ -196,3 +196,164 @@ Theorem C15_tracker_from_source : forall st o,
   Proofs.TrackerIRTie.run_generated st o = Some (Model.Tracker.tstep st o).
 Proof. exact Proofs.TrackerIRTie.tracker_from_source. Qed.
 Print Assumptions C15_tracker_from_source.
+
+(* ---------- the processor model of these statements is the processor of the source ----------
+   Model/AuditProc.v's [deliver], [on_line] / [parse_loop], [poll] / [step], [shutdown] and [read] are the
+   interpretation (Model/AuditIR.v) of programs regenerated on every run from processors/auditd/auditd.go
+   (Read, maintainReassemblerLoop, parseAuditLogs) and reassembler_callback.go (ReassemblyComplete,
+   EventsLost): Gen/AuditProg.v.  For all inputs and all oracles (the same as above, plus the correlator's two
+   cleanups [csess]/[clogins] and the unit conversion [dur] of Go durations, which the model has no use for). *)
+From Coq Require Import String.
+From AM Require Import Model.AuditIR Gen.AuditProg Proofs.AuditIRTie.
+
+Section C15_processor_from_source.
+  Variables line msg event cerr login AS : Type.
+  Variable is_empty : line -> bool.
+  Variable parse : line -> option msg.
+  Variable mseq : msg -> N.
+  Variable mtype : msg -> nat.
+  Variable coalesce : list msg -> option event.
+  Variable old : event -> bool.
+  Variable audit : AS -> event -> AS * option cerr.
+  Variable rlogin : AS -> login -> AS * option cerr.
+  Variable csess clogins : AS -> tmv -> AS.
+  Variable dur : Z -> nat.
+
+  (* the limits Read hands to NewReassembler, from Gen/Consts.v *)
+  Let mx : nat := Z.to_nat Gen.Consts.maxEventsInFlight.
+  Let tmo : nat := dur Gen.Consts.eventTimeout_ns.
+
+  (* ReassemblyComplete, on the callback's own state: note the group, CoalesceMessages, its error into the
+     errors channel by a NON-BLOCKING send, return; an event before After is dropped; ResolveIDs; AuditdEvent; its
+     error into the errors channel likewise *)
+  Theorem C15_processor_from_source_deliver : forall (p : pst line msg event cerr AS) (g : list msg),
+    option_map (p_cb line msg event cerr AS)
+      (complete_gen line msg event cerr login AS is_empty parse coalesce old audit rlogin csess clogins dur
+                    gen_ReassemblyComplete p g) =
+    Some (deliver msg event cerr AS coalesce old audit (p_cb line msg event cerr AS p) g).
+  Proof. exact (deliver_from_source line msg event cerr login AS is_empty parse coalesce old audit rlogin csess clogins dur). Qed.
+
+  (* EventsLost only logs (the model records the count) *)
+  Theorem C15_processor_from_source_lost : forall (p : pst line msg event cerr AS) (n : N),
+    lost_gen line msg event cerr login AS is_empty parse coalesce old audit rlogin csess clogins dur gen_EventsLost p n =
+    Some (on_cb line msg event cerr AS (note_lost msg event cerr AS n) p).
+  Proof. exact (lost_from_source line msg event cerr login AS is_empty parse coalesce old audit rlogin csess clogins dur). Qed.
+
+  (* PushMessage / Maintain / Close = the library step, then the generated callbacks *)
+  Theorem C15_processor_from_source_reass : forall m t (p : pst line msg event cerr AS) (o : rop msg),
+    reass_of line msg event cerr login AS is_empty parse mseq mtype coalesce old audit rlogin csess clogins dur gen_audit m t p o =
+    Some (reass line msg event cerr AS mseq mtype coalesce old audit m t p o).
+  Proof. exact (reass_from_source line msg event cerr login AS is_empty parse mseq mtype coalesce old audit rlogin csess clogins dur). Qed.
+
+  (* parseAuditLogs, one received line: consumed; skipped if empty; ParseLogLine; its error ends the loop (the
+     returned error shows that line and wraps the parser's); otherwise PushMessage *)
+  Theorem C15_processor_from_source_on_line : forall m t now l (p : pst line msg event cerr AS),
+    parser_step_gen line msg event cerr login AS is_empty parse mseq mtype coalesce old audit rlogin csess clogins dur
+                    gen_audit (m, t) now l p =
+    Some (on_line line msg event cerr AS is_empty parse mseq mtype coalesce old audit m t now l p).
+  Proof. exact (on_line_from_source line msg event cerr login AS is_empty parse mseq mtype coalesce old audit rlogin csess clogins dur). Qed.
+
+  (* ... cancellation (seen by the ctx.Err() check or by the select): ctx.Err() is returned, nothing consumed *)
+  Theorem C15_processor_from_source_parse_cancel : forall lim b (p : pst line msg event cerr AS),
+    parse_iter_gen line msg event cerr login AS is_empty parse mseq mtype coalesce old audit rlogin csess clogins dur
+                   gen_audit lim (EvCancel line login b) p = Some (p, Some (Some (XCtx line msg cerr))).
+  Proof. exact (parse_cancel_from_source line msg event cerr login AS is_empty parse mseq mtype coalesce old audit rlogin csess clogins dur). Qed.
+
+  (* ... the context already done while a line is waiting: the check at the top of the loop returns first; no line
+     is consumed after cancellation *)
+  Theorem C15_processor_from_source_line_after_cancel : forall lim now l (p : pst line msg event cerr AS),
+    parse_iter_gen line msg event cerr login AS is_empty parse mseq mtype coalesce old audit rlogin csess clogins dur
+                   gen_audit lim (EvLineCancelled line login now l) p = Some (p, Some (Some (XCtx line msg cerr))).
+  Proof. exact (parse_line_after_cancel_from_source line msg event cerr login AS is_empty parse mseq mtype coalesce old audit rlogin csess clogins dur). Qed.
+
+  (* ... and a finite stream: what was pushed and the line it stopped at are [parse_loop] of the stream *)
+  Theorem C15_processor_from_source_parse_loop : forall m t a (ls : list (nat * line)),
+    exists p', parser_run_gen line msg event cerr login AS is_empty parse mseq mtype coalesce old audit rlogin csess clogins dur
+                              gen_audit (m, t) ls (pinit line msg event cerr AS a) = Some p' /\
+               parse_loop line msg is_empty parse (map snd ls) =
+               (ops_msgs msg (p_ops line msg event cerr AS p'), p_perr line msg event cerr AS p').
+  Proof. exact (parse_loop_from_source line msg event cerr login AS is_empty parse mseq mtype coalesce old audit rlogin csess clogins dur). Qed.
+
+  (* maintainReassemblerLoop: a tick = Maintain, go on; Maintain's error (closed reassembler) = return; ctx.Done = return *)
+  Theorem C15_processor_from_source_maintain : forall d m t now (p : pst line msg event cerr AS),
+    maintain_iter_gen line msg event cerr login AS is_empty parse mseq mtype coalesce old audit rlogin csess clogins dur
+                      gen_audit d (m, t) false (EvTick line login now) p =
+      Some (reass line msg event cerr AS mseq mtype coalesce old audit m t p (RMaintain now), None) /\
+    maintain_iter_gen line msg event cerr login AS is_empty parse mseq mtype coalesce old audit rlogin csess clogins dur
+                      gen_audit d (m, t) true (EvTick line login now) p = Some (p, Some None) /\
+    (forall closed b,
+       maintain_iter_gen line msg event cerr login AS is_empty parse mseq mtype coalesce old audit rlogin csess clogins dur
+                         gen_audit d (m, t) closed (EvCancel line login b) p = Some (p, Some None)).
+  Proof. exact (maintain_from_source line msg event cerr login AS is_empty parse mseq mtype coalesce old audit rlogin csess clogins dur). Qed.
+
+  (* Read's set-up part: the state is untouched; the reassembler gets the generated limits and the callback
+     {au: the tracker, errors: a capacity-1 channel, after: o.After} (otherwise there is no [st]); deferred, in the
+     order they run: ticker.Stop, cancel + wait for the channel the parser goroutine closes, reassembler.Close;
+     goroutines: the parser (on the derived context) and the maintain loop with the generated period; OnReady once;
+     the clean-up ticker has the generated period *)
+  Theorem C15_processor_from_source_setup : forall (p : pst line msg event cerr AS) ev, exists st body n,
+    read_setup_gen line msg event cerr login AS is_empty parse mseq mtype coalesce old audit rlogin csess clogins dur
+                   gen_audit p ev = Some (st, body) /\
+    i_p _ _ _ _ _ _ st = p /\
+    i_lim _ _ _ _ _ _ st = Some (mx, tmo) /\
+    i_defers _ _ _ _ _ _ st = [DStop; DJoin n; DClose] /\
+    In (GParser n) (i_gos _ _ _ _ _ _ st) /\ List.length (i_gos _ _ _ _ _ _ st) = 2 /\
+    has_parser _ _ _ _ _ _ st = true /\
+    maintain_period _ _ _ _ _ _ st = Some Gen.Consts.reassemblerInterval_ns /\
+    i_ready _ _ _ _ _ _ st = ["auditd-processor"%string] /\
+    In (VTicker _ _ _ _ _ Gen.Consts.staleDataCleanupInterval_ns) (map snd (i_env _ _ _ _ _ _ st)).
+  Proof. exact (read_setup_from_source line msg event cerr login AS is_empty parse mseq mtype coalesce old audit rlogin csess clogins dur). Qed.
+
+  (* every input of the model (a line for the parser goroutine, a tick of the maintain goroutine, a login, the
+     cancellation), followed by Read's select: the model's [step]; when an arm returns, the class of the returned
+     error is the model's result (parser error / callback error / login error, each wrapped; ctx.Err()), the
+     parser goroutine has been waited for, and the deferred Close has run: [shutdown] *)
+  Theorem C15_processor_from_source_step : forall (p : pst line msg event cerr AS) (i : inp line login),
+    read_step_gen line msg event cerr login AS is_empty parse mseq mtype coalesce old audit rlogin csess clogins dur gen_audit p i =
+    Some (outcome_of line msg event cerr AS mseq mtype coalesce old audit mx tmo
+            (step line msg event cerr login AS is_empty parse mseq mtype coalesce old audit rlogin mx tmo p i)).
+  Proof. exact (read_step_from_source line msg event cerr login AS is_empty parse mseq mtype coalesce old audit rlogin csess clogins dur). Qed.
+
+  (* the select by itself = [poll] *)
+  Theorem C15_processor_from_source_poll : forall (p : pst line msg event cerr AS),
+    read_poll_gen line msg event cerr login AS is_empty parse mseq mtype coalesce old audit rlogin csess clogins dur gen_audit p =
+    Some (outcome_of line msg event cerr AS mseq mtype coalesce old audit mx tmo (poll line msg event cerr AS p)).
+  Proof. exact (read_poll_from_source line msg event cerr login AS is_empty parse mseq mtype coalesce old audit rlogin csess clogins dur). Qed.
+
+  (* the clean-up arm (no counterpart in the model: the correlator is an oracle there): both cleanups, sessions
+     first, with the same cut-off  time.Now() - staleDataCleanupInterval ; the loop goes on *)
+  Theorem C15_processor_from_source_cleanup : forall now (p : pst line msg event cerr AS),
+    read_arm_gen line msg event cerr login AS is_empty parse mseq mtype coalesce old audit rlogin csess clogins dur
+                 gen_audit (EvTick line login now) p =
+    let cut := TmNowAdd now (- Gen.Consts.staleDataCleanupInterval_ns) in
+    Some (set_as line msg event cerr AS (clogins (csess (as_of line msg event cerr AS p) cut) cut) p, RNone line msg cerr, None).
+  Proof. exact (read_arm_cleanup_from_source line msg event cerr login AS is_empty parse mseq mtype coalesce old audit rlogin csess clogins dur). Qed.
+
+  (* Read as a whole, from its first statement, over any input history = [read] *)
+  Theorem C15_processor_from_source_read : forall (a : AS) (ins : list (inp line login)),
+    let o := read line msg event cerr login AS is_empty parse mseq mtype coalesce old audit rlogin mx tmo a ins in
+    run_read line msg event cerr login AS is_empty parse mseq mtype coalesce old audit rlogin csess clogins dur gen_audit a ins =
+    Some (o_ret _ _ _ _ _ o, o_res _ _ _ _ _ o,
+          match o_res _ _ _ _ _ o with RNone _ _ _ => None | _ => Some (o_fin _ _ _ _ _ o) end).
+  Proof. exact (read_from_source line msg event cerr login AS is_empty parse mseq mtype coalesce old audit rlogin csess clogins dur). Qed.
+End C15_processor_from_source.
+
+(* both error channels Read makes have capacity 1, read off the generated program *)
+Theorem C15_processor_from_source_channels :
+  Forall (fun s => match s with SMakeErrChan _ cap => cap = 1 | _ => True end) (af_body gen_Read).
+Proof. exact read_error_channels_capacity. Qed.
+
+Print Assumptions C15_processor_from_source_deliver.
+Print Assumptions C15_processor_from_source_lost.
+Print Assumptions C15_processor_from_source_reass.
+Print Assumptions C15_processor_from_source_on_line.
+Print Assumptions C15_processor_from_source_parse_cancel.
+Print Assumptions C15_processor_from_source_line_after_cancel.
+Print Assumptions C15_processor_from_source_parse_loop.
+Print Assumptions C15_processor_from_source_maintain.
+Print Assumptions C15_processor_from_source_setup.
+Print Assumptions C15_processor_from_source_step.
+Print Assumptions C15_processor_from_source_poll.
+Print Assumptions C15_processor_from_source_cleanup.
+Print Assumptions C15_processor_from_source_read.
+Print Assumptions C15_processor_from_source_channels.
